@@ -128,3 +128,14 @@ impl HAtomic {
         self.0.load(Ordering::Relaxed)
     }
 }
+
+extern "C" {
+    /// True iff every debt slot (8 fast + 1 helping) of every node in the global list is empty.
+    /// IR build: the engine reads the node cells (found by calibration) as ordinary shared reads.
+    /// Native build: walks the cfg-guarded `node_snapshot()`.
+    pub fn verif_slots_all_empty() -> bool;
+}
+#[inline(always)]
+pub fn slots_all_empty() -> bool {
+    unsafe { verif_slots_all_empty() }
+}
